@@ -191,9 +191,10 @@ PLAN = {
              dict(sb='SB_Chain2', rb='RB_Two', num=150, depth=30)),
         ],
         'thorough': [
-            ('cache d7 push', 'edges', dict(CACHE, MaxDepth=7),
+            # (depth 6 here is 40+ GB of transitions to replay: measured)
+            ('cache d5 push', 'edges', dict(CACHE, MaxDepth=5),
              dict(sb='SB_Chain2', rb='RB_Two')),
-            ('cache d7 verify', 'edges', dict(CACHE, MaxDepth=7,
+            ('cache d5 verify', 'edges', dict(CACHE, MaxDepth=5,
                                               Flavour='"verify"'),
              dict(sb='SB_Chain2', rb='RB_Two')),
             ('watch d7 push', 'edges', dict(WATCH, MaxDepth=7),
